@@ -1093,6 +1093,35 @@ func (b *Builder) V2Attest() bool {
 	return true
 }
 
+// DataOnly adds 1-3 transactions that carry nothing but arbitrary data (no inputs, no fee, no signatures): the only
+// transactions that may legally occur byte-identically more than once, inside one block and across blocks. The
+// payload comes from a tiny alphabet so that repeats are the rule (duplicate transaction hashes in outlines, repeated
+// leaves of the block commitment, repeated IDs).
+func (b *Builder) DataOnly() bool {
+	n := rapid.IntRange(1, 3).Draw(b.T, "nDataOnly")
+	payload := func(i int) []byte {
+		return []byte{"memo"[rapid.IntRange(0, 1).Draw(b.T, fmt.Sprintf("dataOnly%d", i))]}
+	}
+	did := false
+	if b.v1Allowed() && rapid.Bool().Draw(b.T, "dataOnlyV1") {
+		for i := 0; i < n; i++ {
+			b.V1 = append(b.V1, types.Transaction{ArbitraryData: [][]byte{payload(i)}})
+		}
+		b.label("v1-data-only")
+		did = true
+	}
+	if b.Child >= b.C.Net.HardforkV2.AllowHeight {
+		b.AfterV1(func() {
+			for i := 0; i < n; i++ {
+				b.V2 = append(b.V2, types.V2Transaction{ArbitraryData: payload(i)})
+			}
+			b.label("v2-data-only")
+		})
+		did = true
+	}
+	return did
+}
+
 // V2Foundation changes the Foundation address in a v2 transaction.
 func (b *Builder) V2Foundation() bool {
 	if !b.v2Allowed() {
